@@ -64,7 +64,74 @@ fn text_pool(me: &str, x: &str, y: &str, variant: usize, long: bool) -> Vec<Stri
     format!("import {{ Late{x}{l}, Q{x}{l} }} from {x}\nimport {{ Late{y}{l} }} from {y}\nclass OnlyImports{me}{l} {{\n  function one{l}(): int = 1\n}}\n"),
     // 17: the provider of those names
     format!("class Late{me}{l}(val late{l}: int) {{\n  function mk{l}(): Late{me}{l} = Late{me}{l}.init(1)\n}}\nclass Q{me}{l}(val n{l}: int) {{\n  function mk{l}(): Q{me}{l} = Q{me}{l}.init(7)\n  method get{l}(): {ret} = {val}\n}}\n"),
+    // 18: code that parses but is ill typed, on the checker's error paths for destructuring: tuple / struct /
+    // variant patterns (in `let`, a match arm, `if let`) against a value whose type they cannot take apart
+    // (an int, a Str, or a struct that lacks the field / is no tuple / is no enum), with closures that capture
+    // the names those patterns bind
+    {
+      let vt = [String::from("int"), String::from("Str"), format!("Destr{me}{l}")][variant % 3].clone();
+      format!(
+        "class Destr{me}{l}(val fieldNumberOne{l}: int, val fieldNumberTwo{l}: Str) {{\n  function tup{l}(v{l}: {vt}): () -> int = {{\n    let (firstOfTheTuple{l}, secondOfTheTuple{l}) = v{l};\n    () -> firstOfTheTuple{l}\n  }}\n  function obj{l}(v{l}: {vt}): () -> int = {{\n    let {{ fieldNumberOne{l}, fieldNumberTwo{l} as renamedSecond{l}, noSuchFieldAtAll{l} }} = v{l};\n    () -> fieldNumberOne{l} + noSuchFieldAtAll{l}\n  }}\n  function arm{l}(v{l}: {vt}): () -> int =\n    match v{l} {{\n      SomeVariantTag{l}(innerOfTheVariant{l}) -> () -> innerOfTheVariant{l},\n      _ -> () -> 0,\n    }}\n  function cond{l}(v{l}: {vt}): (int) -> int =\n    if let (outerBinder{l}, (nestedBinder{l}, _)) = v{l} {{ (d{l}: int) -> outerBinder{l} + nestedBinder{l} + d{l} }} else {{ (d{l}: int) -> d{l} }}\n}}\n"
+      )
+    },
+    // 19: or-patterns (match arms, nested in tuple patterns, `if let`) whose later alternatives bind other names
+    // than the first one (variant odd) and / or name a tag the enum does not have (variant % 3 != 0); the
+    // names that occur in a later alternative only are long enough for the collected string table
+    {
+      let b2 = if variant % 2 == 0 { "radiusOrSideLength" } else { "sideLengthOfTheSquare" };
+      let b3 = if variant % 2 == 0 { String::from("_") } else { format!("onlyInTheThirdAlternative{l}") };
+      let tag2 = if variant % 3 == 0 { "Square" } else { "SquareWithRoundedCorners" };
+      format!(
+        "class Shape{me}{l}(Circle{l}(int), Square{l}(int), Tri{l}(int, int)) {{\n  function mk{l}(): Shape{me}{l} = Shape{me}{l}.Circle{l}(1)\n  method size{l}(): int =\n    match this {{\n      Circle{l}(radiusOrSideLength{l}) | Square{l}({b2}{l}) -> radiusOrSideLength{l},\n      Tri{l}(legOfTheTriangle{l}, _) -> legOfTheTriangle{l},\n    }}\n  method both{l}(other{l}: Shape{me}{l}): () -> int =\n    match (this, other{l}) {{\n      (Circle{l}(commonRadiusName{l}), _) | ({tag2}{l}(commonRadiusName{l}), _) | (Tri{l}(commonRadiusName{l}, {b3}), _) -> () -> commonRadiusName{l},\n      _ -> () -> 0,\n    }}\n  function opt{l}(s{l}: Shape{me}{l}): int =\n    if let Circle{l}(x{l}) | Tri{l}(x{l}, {b3}) = s{l} {{ x{l} }} else {{ 0 }}\n}}\n"
+      )
+    },
+    // 20: or-patterns over the enum of another module (whatever that module currently declares)
+    format!(
+      "import {{ Shape{x}{l} }} from {x}\nclass UseShape{l} {{\n  function f{l}(s{l}: Shape{x}{l}): int =\n    match s{l} {{\n      Circle{l}(n{l}) | Square{l}(n{l}) | NoSuchTagAnywhere{l}(n{l}) -> n{l},\n      Tri{l}(_, onlyBoundInOneAlternative{l}) | _ -> 0,\n    }}\n  function g{l}(): int = UseShape{l}.f{l}(Shape{x}{l}.mk{l}())\n}}\n"
+    ),
+    // 21: a type error and, further down, a syntax error in the same file
+    format!("class Mixed{me}{l} {{\n  function f{l}(): int = \"not an int {l}\"\n}}\nclass Half{l} {{\n  function g{l}(): int =\n}}\n"),
   ]
+}
+
+/// the text a content stands for does not parse cleanly (decided by the real parser)
+fn has_syntax_error(c: &Value) -> bool {
+  let text = crate::server::instantiate(&crate::server::normalize(c));
+  let mut heap = samlang_heap::Heap::new();
+  let m = heap.alloc_module_reference_from_string_vec(vec!["M".to_string()]);
+  let mut es = samlang_errors::ErrorSet::new();
+  samlang_parser::parse_source_module_from_text(&text, m, &mut heap, &mut es);
+  es.has_errors()
+}
+
+/// the generator's own view of the workspace: module name -> content it currently has
+fn apply(cur: &mut std::collections::BTreeMap<String, Value>, op: &Value) {
+  match op["op"].as_str().unwrap() {
+    "Init" => {
+      cur.clear();
+      for (n, c) in op["files"].as_object().unwrap() {
+        cur.insert(n.clone(), c.clone());
+      }
+    }
+    "Update" => {
+      for (n, c) in op["u"].as_object().unwrap() {
+        cur.insert(n.clone(), c.clone());
+      }
+    }
+    "Rename" => {
+      for p in op["pairs"].as_array().unwrap() {
+        if let Some(c) = cur.remove(p[0].as_str().unwrap()) {
+          cur.insert(p[1].as_str().unwrap().to_string(), c);
+        }
+      }
+    }
+    "Remove" => {
+      for n in op["mods"].as_array().unwrap() {
+        cur.remove(n.as_str().unwrap());
+      }
+    }
+    _ => {}
+  }
 }
 
 fn random_content(rng: &mut Rng, me: &str, long_bias: bool) -> Value {
@@ -97,6 +164,87 @@ fn random_content(rng: &mut Rng, me: &str, long_bias: bool) -> Value {
   json!({"text": pool[rng.below(pool.len())]})
 }
 
+/// Scripted prefix: a super-type hierarchy spread over three modules (far : mid : top : base), where `base` is
+/// declared in the top module itself or in a fourth one and is an interface at some times and a CLASS at others.
+/// The checker reports "class type is incompatible with interface type" at the annotation `top : base`, i.e. at a
+/// location INSIDE the top module, also while it checks the middle and the far module.  The top module has
+/// errors of its own as well.  Edits: harmless ones of the far importer, edits of the middle module, and edits
+/// that turn the base from interface to class and back.
+fn super_type_chain(rng: &mut Rng, ops: &mut Vec<Value>, mut files: serde_json::Map<String, Value>, ms: &[&str], long: bool) {
+  let l = if long { "WithAVeryLongSuffixForGc" } else { "" };
+  let (top, mid, far, fourth) = (ms[0], ms[1], ms[2], ms[3]);
+  let base_elsewhere = rng.chance(1, 2);
+  let own_kind = rng.below(3);
+  let mid_is_class = rng.chance(1, 3);
+  let far_implements = rng.chance(1, 2);
+  let base_decl = |is_class: bool| {
+    if is_class { format!("class Base{l}(val baseField{l}: int) {{}}\n") } else { format!("interface Base{l} {{}}\n") }
+  };
+  // own errors of the top module: a type error, a syntax error further down, or both
+  let own = match own_kind {
+    0 => format!("class Own{top}{l} {{\n  function f{l}(): int = \"not an int {l}\"\n}}\n"),
+    1 => format!("class Own{top}{l} {{\n  function f{l}(): int =\n}}\n"),
+    _ => format!("class Own{top}{l} {{\n  function f{l}(): int = \"not an int {l}\"\n  function g{l}(): Str =\n}}\n"),
+  };
+  let top_text = |base_is_class: bool, extends: bool| {
+    let head = if base_elsewhere { format!("import {{ Base{l} }} from {fourth}\n") } else { base_decl(base_is_class) };
+    let ext = if extends { format!(" : Base{l}") } else { String::new() };
+    format!("{head}interface Top{top}{l}{ext} {{\n  method topMethod{l}(): int\n}}\n{own}")
+  };
+  let mid_text = |extra: bool| {
+    let more = if extra { format!("  method anotherMidMethod{l}(): int\n") } else { String::new() };
+    if mid_is_class {
+      format!("import {{ Top{top}{l} }} from {top}\ninterface Mid{mid}{l} : Top{top}{l} {{\n  method midMethod{l}(): int\n{more}}}\nclass MidImpl{l}(val m{l}: int) : Top{top}{l} {{\n  method topMethod{l}(): int = this.m{l}\n}}\n")
+    } else {
+      format!("import {{ Top{top}{l} }} from {top}\ninterface Mid{mid}{l} : Top{top}{l} {{\n  method midMethod{l}(): int\n{more}}}\n")
+    }
+  };
+  let far_text = |n: usize| {
+    if far_implements {
+      format!("import {{ Mid{mid}{l} }} from {mid}\nclass Far{far}{l}(val v{l}: int) : Mid{mid}{l} {{\n  method midMethod{l}(): int = {n}\n  method topMethod{l}(): int = this.v{l}\n}}\n")
+    } else {
+      format!("import {{ Mid{mid}{l} }} from {mid}\nclass Far{far}{l} {{\n  function g{l}(): int = {n}\n}}\n")
+    }
+  };
+  let start_as_class = rng.chance(1, 2);
+  files.insert(top.to_string(), json!({"text": top_text(start_as_class, true)}));
+  files.insert(mid.to_string(), json!({"text": mid_text(false)}));
+  files.insert(far.to_string(), json!({"text": far_text(1)}));
+  if base_elsewhere {
+    files.insert(fourth.to_string(), json!({"text": base_decl(start_as_class)}));
+  }
+  ops.push(json!({"op": "Init", "files": files}));
+  let upd = |m: &str, t: String| {
+    let mut u = serde_json::Map::new();
+    u.insert(m.to_string(), json!({"text": t}));
+    json!({"op": "Update", "u": u})
+  };
+  let set_base = |is_class: bool| {
+    if base_elsewhere { upd(fourth, base_decl(is_class)) } else { upd(top, top_text(is_class, true)) }
+  };
+  let mut is_class = start_as_class;
+  let mut n = 1;
+  for _ in 0..(3 + rng.below(3)) {
+    match rng.below(5) {
+      0 | 1 => {
+        n += 1;
+        ops.push(upd(far, far_text(n)));
+      }
+      2 => ops.push(upd(mid, mid_text(rng.chance(1, 2)))),
+      3 => {
+        is_class = !is_class;
+        ops.push(set_base(is_class));
+      }
+      _ => {
+        is_class = true;
+        ops.push(set_base(true));
+        n += 1;
+        ops.push(upd(far, far_text(n)));
+      }
+    }
+  }
+}
+
 /// `vh server-gen --seed N --n HISTORIES --len L --out FILE [--long]`
 pub fn main(args: &[String]) {
   let seed: u64 = arg_or(args, "--seed", "1").parse().unwrap();
@@ -118,7 +266,7 @@ pub fn main(args: &[String]) {
     }
     // one history in four starts from a dependency chain: q provides a class, p hands it out, far uses it through p
     // without importing q; q is then edited so that far's diagnostics have to change (and changed back)
-    let chain = rng.chance(1, 4);
+    let chain = rng.chance(1, 3);
     if chain {
       let mut ms: Vec<&str> = NAMES.to_vec();
       for i in (1..ms.len()).rev() {
@@ -126,7 +274,10 @@ pub fn main(args: &[String]) {
       }
       let (q, p, far) = (ms[0], ms[1], ms[2]);
       let v = rng.below(6);
-      if rng.chance(1, 2) {
+      let which = rng.below(3);
+      if which == 2 {
+        super_type_chain(&mut rng, &mut ops, files, &ms, long);
+      } else if which == 0 {
         files.insert(q.to_string(), json!({"text": text_pool(q, q, q, v, long)[5]}));
         files.insert(p.to_string(), json!({"text": text_pool(p, q, q, v, long)[4]}));
         files.insert(far.to_string(), json!({"text": text_pool(far, p, p, v, long)[6]}));
@@ -159,14 +310,45 @@ pub fn main(args: &[String]) {
     } else {
       ops.push(json!({"op": "Init", "files": files}));
     }
+    // the generator follows the workspace: which module currently has which content
+    let mut cur = std::collections::BTreeMap::new();
+    for op in &ops {
+      apply(&mut cur, op);
+    }
+    let mut applied = ops.len();
     for _ in 0..len {
+      for op in &ops[applied..] {
+        apply(&mut cur, op);
+      }
+      applied = ops.len();
       let k = rng.below(100);
       if k < 60 {
         let mut u = serde_json::Map::new();
-        let cnt = if rng.chance(1, 5) { 2 } else { 1 };
-        for _ in 0..cnt {
-          let m = NAMES[rng.below(NAMES.len())];
-          u.insert(m.to_string(), random_content(&mut rng, m, long));
+        if !cur.is_empty() && rng.chance(1, 5) {
+          // an update that re-sends the text a module already has (editors do: save without change, reopen):
+          // every second time for a module whose current text has a syntax error, if there is one; sometimes
+          // for two modules, sometimes in one batch with a real change of another module
+          let broken: Vec<String> = cur.iter().filter(|(_, c)| has_syntax_error(c)).map(|(n, _)| n.clone()).collect();
+          let all: Vec<String> = cur.keys().cloned().collect();
+          let from = if !broken.is_empty() && rng.chance(1, 2) { &broken } else { &all };
+          let m = from[rng.below(from.len())].clone();
+          u.insert(m.clone(), cur[&m].clone());
+          if rng.chance(1, 4) {
+            let m2 = all[rng.below(all.len())].clone();
+            u.insert(m2.clone(), cur[&m2].clone());
+          }
+          if rng.chance(1, 3) {
+            let m3 = NAMES[rng.below(NAMES.len())];
+            if !u.contains_key(m3) {
+              u.insert(m3.to_string(), random_content(&mut rng, m3, long));
+            }
+          }
+        } else {
+          let cnt = if rng.chance(1, 5) { 2 } else { 1 };
+          for _ in 0..cnt {
+            let m = NAMES[rng.below(NAMES.len())];
+            u.insert(m.to_string(), random_content(&mut rng, m, long));
+          }
         }
         // one update in six lists one of its modules twice: an earlier text (often one with a syntax error) first
         if rng.chance(1, 6) {
